@@ -70,8 +70,8 @@ def is_sync(r):
     return "/sync/" in ("/" + r.get("stream", "") + "/")
 
 
-FIELDS_SYNC = ("db", "calls", "done", "fifo", "req_true", "trail", "final")
-FIELDS_ASYNC = ("db", "calls_perm", "done", "req_true", "trail", "final")
+FIELDS_SYNC = ("db", "calls", "done", "fifo", "req_true", "trail", "final", "quiet", "assert")
+FIELDS_ASYNC = ("db", "calls_perm", "done", "req_true", "trail", "final", "quiet", "assert")
 
 
 def annotate(recs):
@@ -102,7 +102,7 @@ def annotate(recs):
         t = v.split()
         r["enc"] = {"db": t[0] == "1", "calls": t[1] == "1", "calls_perm": t[2] == "1", "done": t[3] == "1",
                     "fifo": t[4] == "1", "req_true": t[5] == "1", "trail": t[6] == "1", "final": t[7] == "1",
-                    "n_db": int(t[8]), "n_calls": int(t[9]), "sync": is_sync(r)}
+                    "n_db": int(t[8]), "n_calls": int(t[9]), "quiet": t[10] == "1", "assert": t[11] == "1", "sync": is_sync(r)}
     return recs
 
 
